@@ -103,11 +103,15 @@ class XMLParser(object):
         :param encoding: the encoding of the file; if not specified, the
                          encoding is assumed to be ASCII, UTF-8, or UTF-16, or
                          whatever the encoding specified in the XML declaration
-                         (if any)
+                         (if any); ignored if the source yields text, not bytes
         """
         self.source = source
         self.filename = filename
+        self.expat = self._create_parser(encoding)
+        self._started = False
+        self._queue = []
 
+    def _create_parser(self, encoding):
         # Setup the Expat parser
         parser = expat.ParserCreate(encoding, '}')
         parser.buffer_text = True
@@ -136,9 +140,7 @@ class XMLParser(object):
         parser.SetParamEntityParsing(expat.XML_PARAM_ENTITY_PARSING_ALWAYS)
         parser.UseForeignDTD()
         parser.ExternalEntityRefHandler = self._build_foreign
-
-        self.expat = parser
-        self._queue = []
+        return parser
 
     def parse(self):
         """Generator that parses the XML source, yielding markup events.
@@ -160,6 +162,12 @@ class XMLParser(object):
                             done = True
                         else:
                             if isinstance(data, six.text_type):
+                                if not self._started:
+                                    # The source yields text, which is handed
+                                    # to Expat as UTF-8: neither the encoding
+                                    # named in its XML declaration nor the
+                                    # `encoding` argument applies
+                                    self.expat = self._create_parser('utf-8')
                                 try:
                                     data = data.encode('utf-8')
                                 except UnicodeEncodeError:
@@ -168,6 +176,7 @@ class XMLParser(object):
                                     # it does for such bytes in a file
                                     data = data.encode('utf-8',
                                                        'surrogatepass')
+                            self._started = True
                             self._parse(data, False)
                     for event in self._queue:
                         yield event
